@@ -699,6 +699,10 @@ def cmd_run(args):
     for f in files:
         cbf[f], srcs[f] = candidates(f)
     byid = {c["id"]: c for f in files for c in cbf[f]}
+    if args.ops:
+        keep = set(args.ops.split(","))
+        for f in files:
+            cbf[f] = [c for c in cbf[f] if c["op"] in keep]
     if args.exclude:
         # a further sample: leave out the mutants (and the candidates found ill-typed) of earlier campaigns
         gone = set()
@@ -965,6 +969,7 @@ def main():
     a.add_argument("--from", dest="from_json", default="")
     a.add_argument("--survivors-of", default="")
     a.add_argument("--exclude", default="", help="results json files of earlier campaigns whose mutants are left out")
+    a.add_argument("--ops", default="", help="restrict to these mutation operators (comma separated)")
     a.add_argument("--full-matrix", action="store_true", help="every mutant against every relevant stream (slow)")
     a.add_argument("--matrix-min", type=float, default=20.0, help="time budget (minutes) of the matrix phase")
     a.add_argument("--out", default="")
